@@ -50,7 +50,8 @@ class AaveWorld:
         from demeter.aave import AaveV3Market
 
         self.ctx = ctx
-        self.tokens = {n: TokenInfo(n, (decimals or {}).get(n, 18)) for n in token_names}
+        decimals = decimals if decimals is not None else {"USDC": 6, "USDT": 6}  # as on chain
+        self.tokens = {n: TokenInfo(n, decimals.get(n, 18)) for n in token_names}
         self.names = list(token_names)
         self.actions = []
         self.market = AaveV3Market(MarketInfo("aave", MarketTypeEnum.aave_v3), RISK_CSV, tokens=list(self.tokens.values()))
